@@ -40,22 +40,70 @@ pub fn native_type(n: Native) -> NativeType {
     }
 }
 
+thread_local! {
+    /// How `column_type` sets the `frozen` flag of collections and UDTs: 0 = never (what bind markers / result
+    /// metadata of top-level columns carry), 1 = everywhere, 2 = on nested ones only (what servers report for
+    /// collections inside collections). The flag has no bearing on the wire format or on compatibility.
+    pub static FROZEN_MODE: std::cell::Cell<u8> = const { std::cell::Cell::new(0) };
+}
+pub fn frozen_mode() -> u8 {
+    FROZEN_MODE.with(|c| c.get())
+}
+pub fn with_frozen<R>(mode: u8, f: impl FnOnce() -> R) -> R {
+    let old = FROZEN_MODE.with(|c| c.replace(mode));
+    let r = f();
+    FROZEN_MODE.with(|c| c.set(old));
+    r
+}
+/// Modes that give a column type different from mode 0 (and from each other) for `t`.
+pub fn frozen_modes_for(t: &Type) -> Vec<u8> {
+    fn has_slot(t: &Type, top: bool, nested_only: bool) -> bool {
+        let here = !matches!(t, Type::Native(_) | Type::Tuple(_) | Type::Vector(..)) && !(nested_only && top);
+        here || match t {
+            Type::Native(_) => false,
+            Type::List(e) | Type::Set(e) | Type::Vector(e, _) => has_slot(e, false, nested_only),
+            Type::Map(k, v) => has_slot(k, false, nested_only) || has_slot(v, false, nested_only),
+            Type::Tuple(ts) => ts.iter().any(|x| has_slot(x, false, nested_only)),
+            Type::Udt { fields, .. } => fields.iter().any(|(_, x)| has_slot(x, false, nested_only)),
+        }
+    }
+    let mut m = vec![0];
+    if has_slot(t, true, false) {
+        m.push(1);
+        let top_is_slot = !matches!(t, Type::Native(_) | Type::Tuple(_) | Type::Vector(..));
+        if top_is_slot && has_slot(t, true, true) {
+            m.push(2);
+        }
+    }
+    m
+}
+
 pub fn column_type(t: &Type) -> ColumnType<'static> {
+    column_type_mode(t, frozen_mode(), true)
+}
+
+fn column_type_mode(t: &Type, mode: u8, top: bool) -> ColumnType<'static> {
+    let frozen = match mode {
+        0 => false,
+        1 => true,
+        _ => !top,
+    };
+    let sub = |x: &Type| column_type_mode(x, mode, false);
     match t {
         Type::Native(n) => ColumnType::Native(native_type(*n)),
-        Type::List(e) => ColumnType::Collection { frozen: false, typ: CollectionType::List(Box::new(column_type(e))) },
-        Type::Set(e) => ColumnType::Collection { frozen: false, typ: CollectionType::Set(Box::new(column_type(e))) },
-        Type::Map(k, v) => ColumnType::Collection { frozen: false, typ: CollectionType::Map(Box::new(column_type(k)), Box::new(column_type(v))) },
-        Type::Tuple(ts) => ColumnType::Tuple(ts.iter().map(column_type).collect()),
+        Type::List(e) => ColumnType::Collection { frozen, typ: CollectionType::List(Box::new(sub(e))) },
+        Type::Set(e) => ColumnType::Collection { frozen, typ: CollectionType::Set(Box::new(sub(e))) },
+        Type::Map(k, v) => ColumnType::Collection { frozen, typ: CollectionType::Map(Box::new(sub(k)), Box::new(sub(v))) },
+        Type::Tuple(ts) => ColumnType::Tuple(ts.iter().map(sub).collect()),
         Type::Udt { keyspace, name, fields } => ColumnType::UserDefinedType {
-            frozen: false,
+            frozen,
             definition: Arc::new(UserDefinedType {
                 name: name.clone().into(),
                 keyspace: keyspace.clone().into(),
-                field_types: fields.iter().map(|(n, t)| (n.clone().into(), column_type(t))).collect(),
+                field_types: fields.iter().map(|(n, t)| (n.clone().into(), sub(t))).collect(),
             }),
         },
-        Type::Vector(e, d) => ColumnType::Vector { typ: Box::new(column_type(e)), dimensions: *d },
+        Type::Vector(e, d) => ColumnType::Vector { typ: Box::new(sub(e)), dimensions: *d },
     }
 }
 
